@@ -20,16 +20,24 @@ func verifAct(e *vEnv, r step.RunningStep, given map[string]bool, a int) (closed
 		given["deploy"] = true
 	case 1:
 		var en any
-		switch verifrt.Choice("enabled", 3) {
+		// the run loop hands the stage input over as written (validated, not converted): a literal
+		// in the workflow file arrives as text, and the bool schema accepts several spellings of false
+		nEn := 4
+		if e.boolEnabledOnly {
+			nEn = 3
+		}
+		switch verifrt.Choice("enabled", nEn) {
 		case 1:
 			en = true
 		case 2:
 			en = false
+		case 3:
+			en = "no"
 		}
 		err := r.ProvideStageInput("enabling", map[string]any{"enabled": en})
 		verifrt.Assert((err != nil) == given["enabling"], "enabling input is accepted exactly once")
 		if !given["enabling"] {
-			e.enabledFalse = en == false
+			e.enabledFalse = en == false || en == "no"
 		}
 		given["enabling"] = true
 	case 2:
@@ -98,7 +106,19 @@ func verifEpilogue(e *vEnv, r step.RunningStep, closed bool) {
 			verifrt.Reach(st)
 		}
 	}
+	// completeness: the run loop resolves what depends on a stage only when the stage is reported
+	// finished or declared impossible; a stage left undeclared keeps its dependants (and with them the
+	// run) waiting for unrelated steps (C01, second sentence)
+	if e.h.completes == 1 {
+		for _, st := range verifStageOrder {
+			if len(e.h.declared[st]) > 0 { // a stage without outputs has no dependants
+				verifrt.Assert(e.h.finished[st] || e.h.failed[st], "by the time the step has ended every stage is reported finished or declared impossible: "+st)
+			}
+		}
+	}
 }
+
+var verifStageOrder = []string{"deploy", "deploy_failed", "enabling", "disabled", "starting", "running", "cancelled", "outputs", "crashed", "closed"}
 
 func verifStart(e *vEnv) step.RunningStep {
 	r, err := e.runnable().Start(map[string]any{"step": "wait"}, "s1", e.h)
@@ -141,6 +161,7 @@ func VerifH_C12_plugin_close_anytime() {
 // Scenario C: K provide-actions in arbitrary order, duplicates included.
 func VerifH_C12_plugin_any_order() {
 	e := verifNewEnv(true)
+	e.boolEnabledOnly = true // the textual spellings are covered by scenarios A and B
 	r := verifStart(e)
 	given := map[string]bool{}
 	K := verifrt.Param("K", 3)
@@ -149,6 +170,66 @@ func VerifH_C12_plugin_any_order() {
 		verifAct(e, r, given, acts[verifrt.Choice("action", len(acts))])
 	}
 	verifEpilogue(e, r, false)
+}
+
+// Scenario D: the close request arrives while the step is inside one of its notifications (the handler
+// is slow, e.g. because the run lock is held): whichever notification it is, closing returns only once
+// the step has said everything it has to say.
+func VerifH_C12_plugin_close_during_notification() {
+	e := verifNewEnv(verifrt.Choice("hasCancel", 2) == 1)
+	e.immediate = true
+	e.h.holdAt = verifrt.Choice("holdAt", verifrt.Param("N", 12))
+	e.h.hold = make(chan struct{})
+	r := verifStart(e)
+	given := map[string]bool{}
+	n := 1 + verifrt.Choice("inputs", 3)
+	for a := 0; a < n; a++ {
+		verifAct(e, r, given, a)
+	}
+	if verifrt.Choice("stop", 2) == 1 {
+		verifAct(e, r, given, 3)
+	}
+	verifrt.Settle()
+	returned := 0
+	closer := func() {
+		how := verifrt.Choice("how", 2)
+		verifrt.Go(func() {
+			var err error
+			if how == 0 {
+				err = r.Close()
+			} else {
+				err = r.ForceClose()
+			}
+			verifrt.Assert(err == nil, "closing returns no error")
+			verifAtomicCloseReturned(e.h, &returned)
+		})
+	}
+	want := 1
+	if !e.h.held {
+		// not reached yet: the first close request makes the step say the rest; a notification of
+		// that closing sequence may be the one that is held
+		closer()
+		verifrt.Settle()
+		if !e.h.held {
+			verifrt.Assert(returned == 1, "a close request returns once the step has ended")
+			verifEpilogue(e, r, true)
+			return
+		}
+		verifrt.Reach("held-while-closing")
+		want = 2
+	}
+	verifrt.Reach("held")
+	closer() // a (further) close request while the step is inside a notification
+	verifrt.Settle()
+	close(e.h.hold)
+	verifrt.Settle()
+	verifrt.Assert(returned == want, "a close request made during a notification returns once the step has ended")
+	verifEpilogue(e, r, true)
+}
+
+func verifAtomicCloseReturned(h *vHandler, n *int) {
+	h.closeReturned = true
+	*n = *n + 1
 }
 
 // C05: the temporary deployment made to read a plugin's schema is closed on every return path.
